@@ -80,6 +80,7 @@ struct Swarm {
     unsigned n_ops = 30;
     unsigned rotate_export_pm = 500;
     unsigned untimed_pm = 200;      // records without a timestamp
+    bool force_storable = false;    // every query/response carries a member that no hint can exclude (preamble profile: a block must reach the file)
     bool crash_mode = false;        // crash scenarios: named outputs, older files under target names, rotation onto existing / open names
     std::vector<std::string> ip_pool, name_pool, payload_pool;
     std::vector<CDNS::ClassType> ct_pool;
@@ -182,7 +183,7 @@ inline Swarm swarm(uint64_t seed, Profile prof) {
         }
         case P_TABLES: s.pool = (unsigned)r.range(1, 3); s.pool_pm = 900; s.density_pm = r.coin() ? 900 : 500; s.w_rotate = 0; break;
         case P_TIME: s.untimed_pm = 300; s.w_mm = 8; break;
-        case P_PREAMBLE: s.n_ops = (unsigned)r.range(1, 4); break;
+        case P_PREAMBLE: s.n_ops = (unsigned)r.range(2, 6); s.force_storable = true; s.w_qr = 14; break;
         case P_EMPTY: s.empty_stats_pm = 500; s.stats_pm = 600; s.empty_struct_pm = 500; s.w_ext = 6; break;
         case P_BIG: s.big_pm = 120; s.n_ops = (unsigned)r.range(10, 40); break;
         case P_CRASH: s.crash_mode = true; s.n_ops = (unsigned)r.range(2, 14); s.w_rotate = 5; s.fd_output = false; s.big_pm = r.chance(1, 4) ? 60 : 0; break;
